@@ -1133,7 +1133,36 @@ def r10_6b(prog, chk):
                    detail=None if resets else "the search reads %s; the setter leaves the memo of the previous target in place: asking the same target again "
                    "returns the neighbourhood computed with the old value" % ", ".join(sorted(touched)),
                    key="R10.6b|%s|%s" % (f.name, "+".join(sorted(touched))))
-    chk.floor("R10.6b", n, 4)
+    # the same for the setters of the BASE class (cross-validation, K-fold, simulation flags, collocated ranks): every search reads them
+    base_inputs = set()
+    for K in ("NeighMoving", "NeighBench", "NeighCell", "NeighImage", "NeighUnique"):
+        for g in [f for f in prog.fns(K + "::getNeigh") if f.body is not None][:1]:
+            base_inputs |= {a.split("::", 1)[1] for a in eff.rw(g)[0] if a.startswith("ANeigh::")}
+    nb = 0
+    for f in sorted(prog.funcs, key=lambda x: (x.file, x.line)):
+        if f.cls != "ANeigh" or f.body is None or f.kind != "method" or not f.short.startswith("set") or f.d.get("const") or f.short == "setIsChanged":
+            continue
+        written = set()
+        for x in f.walk():
+            if x["k"] in ("Assign", "OpCall") and x.get("op") == "=" and x.get("c"):
+                l = x["c"][0]
+                while l is not None and l["k"] in ("Index", "Cast"):
+                    l = l["c"][0]
+                if l is not None and l["k"] == "MemberExpr" and l.get("mk") == "field" and (not l.get("c") or l["c"][0] is None or l["c"][0]["k"] == "This"):
+                    written.add(l["n"])
+        touched = written & base_inputs
+        if not touched:
+            continue
+        nb += 1
+        chk.analysed(f)
+        resets = any(c["k"] == "MCall" and (c.get("callee") or "").split("::")[-1] in ("setIsChanged", "reset") and
+                     (call_obj(c) is None or call_obj(c)["k"] == "This") for c in f.calls())
+        chk.ob("R10.6b", "%s: changing %s invalidates the memorised neighbourhood" % (f.name, ", ".join(sorted(touched))), f.loc(), resets,
+               detail=None if resets else "every search reads %s; the setter leaves the memo of the previous target in place: asking the same target again "
+               "returns the neighbourhood computed with the old value" % ", ".join(sorted(touched)),
+               key="R10.6b|%s|%s" % (f.name, "+".join(sorted(touched))))
+    chk.extra["R10.6b_base_class_setters"] = nb
+    chk.floor("R10.6b", n + nb, 4)
 
 
 INCR = ("++", "post++", "pre++")        # counting into an element (`m[i]++`) accumulates like `m[i] += 1`
